@@ -69,6 +69,7 @@ abbrev Mech := List Bytes → StepRes
 
 inductive Err
   | none | nomech | unexpected | saslFailure | b64 | authnErr | mechErr | eof | terminated
+  | xmlErr      -- the element's content is not well-formed
   | notCalled   -- the element never reached the feature (rejected by the feature dispatch)
   | writeErr    -- writing to the connection failed
   | ctxErr      -- the context was cancelled / its deadline passed
@@ -78,18 +79,31 @@ def Err.toString : Err → String
   | .none => "nil" | .nomech => "nomech" | .unexpected => "unexpected"
   | .saslFailure => "saslfailure" | .b64 => "b64" | .authnErr => "authnerr"
   | .mechErr => "mecherr" | .eof => "eof" | .terminated => "terminated"
+  | .xmlErr => "xmlsyntax"
   | .notCalled => "notcalled"
   | .writeErr => "write"
   | .ctxErr => "ctx"
 
 /-! ## initiating side -/
 
+/-- what is inside a `<failure/>` element — it changes which error is returned, never that
+the element is a failure -/
+inductive FailBody
+  | defined      -- one defined condition (`<not-authorized/>` …)
+  | empty        -- no child at all
+  | unknown      -- a child that is not a defined condition
+  | textOnly     -- only a `<text/>`
+  | several      -- several conditions
+  | foreign      -- a condition element in another namespace
+  | malformed    -- content that is not well-formed XML
+  deriving DecidableEq, Repr, Inhabited
+
 /-- elements the receiver may send while we negotiate (anything else the XML layer lets
 through is one of the two `other` classes) -/
 inductive CEv
   | challenge (p : Payload)
   | success (p : Payload)
-  | failure
+  | failure (body : FailBody)
   | other      -- an element in the SASL namespace with another name
   | otherNs    -- an element outside the SASL namespace (whatever its local name)
   | space      -- a token that is not a start element (white space between elements)
@@ -115,6 +129,12 @@ structure CRes where
 def select (cm : List (String × Mech)) (adv : List String) : Option (String × Mech) :=
   cm.find? (fun m => adv.contains m.1)
 
+/-- the error a `<failure/>` element is returned as: the peer's failure, or the decoder's
+error when its content cannot be read — never `nil` -/
+def failErr : FailBody → Err
+  | .malformed => .xmlErr
+  | _ => .saslFailure
+
 def fail (e : Err) (hist : List Bytes) (consumed : Nat) : CRes :=
   { err := e, hist := hist, consumed := consumed }
 
@@ -127,7 +147,7 @@ def readFinal (hist : List Bytes) : List CEv → CRes
     | some _ => { authn := true, hist := hist, consumed := 1 }
     | none => fail .b64 hist 1
   | .challenge _ :: _ => fail .unexpected hist 1
-  | .failure :: _ => fail .saslFailure hist 1
+  | .failure b :: _ => fail (failErr b) hist 1
   | .other :: _ => fail .unexpected hist 1
   | .otherNs :: _ => fail .unexpected hist 1
   | .space :: _ => fail .unexpected hist 1
@@ -157,7 +177,7 @@ def clientLoop (mech : Mech) (hist : List Bytes) : List CEv → CRes
       | .done => { authn := true, hist := hist ++ [c], consumed := 1 }
       | .authnErr => fail .mechErr (hist ++ [c]) 1
       | .otherErr => fail .mechErr (hist ++ [c]) 1
-  | .failure :: _ => fail .saslFailure hist 1
+  | .failure b :: _ => fail (failErr b) hist 1
   | .other :: _ => fail .unexpected hist 1
   | .otherNs :: _ => fail .unexpected hist 1
   | .space :: _ => fail .unexpected hist 1
@@ -227,7 +247,7 @@ def clientLoopE (mech : Mech) : CEnv → Nat → List Bytes → List CEv → CRe
         | .done => { authn := true, hist := hist ++ [c], consumed := 1 }
         | .authnErr => fail .mechErr (hist ++ [c]) 1
         | .otherErr => fail .mechErr (hist ++ [c]) 1
-    | .failure :: _ => fail .saslFailure hist 1
+    | .failure b :: _ => fail (failErr b) hist 1
     | .other :: _ => fail .unexpected hist 1
     | .otherNs :: _ => fail .unexpected hist 1
     | .space :: _ => fail .unexpected hist 1
